@@ -12,7 +12,7 @@ def main(tier, replay=None):
     extra = [w for w in ("cdbmss.o", "cdbmake.a") if w not in load_line(src, "qmail-smtpd")]
     exe = compile_harness(src, os.path.join(rd, "c08"), [os.path.join(VERIF, "seq/c08_smtpd.c"), os.path.join(VERIF, "seq/net_stubs.c")],
                           link_target="qmail-smtpd", exclude=EXCL, extra_objs=extra)
-    depth = 4 if tier == "quick" else 6
+    depth = 4 if tier == "quick" else 5
     jobs = []
     for cfg in range(72 + 18):
         d = os.path.join(rd, "cfg%d" % cfg); os.makedirs(d)
